@@ -276,10 +276,10 @@ def any_chunk(kind, *args):
 class C05(flatcheck.FlatCheck):
     prop = 'C05'
     manifest = dict(
-        level='proof', design='DESIGN.md 4/C05',
-        text="Lean 4 theorem C05_queued_history: for every queued configuration, every script whose callbacks trigger events / remove models / raise arbitrarily, and every history, the engine model's trace follows the abstract FIFO queue (run-to-completion incl. finalize, arrival order, at most once, deferred calls return True, discard on escape, remove_model drops exactly that model's pending entries, drain returns only when empty). Proved by simulation; the same acceptor judges implementation traces of Machine and of the other synchronous classes; unqueued immediacy by model equality; the asyncio classes (queued=True, queued='model') by a sync-vs-async twin on the same programs (incl. remove_model from callbacks).",
-        note="Trusted: Lean kernel, Model/Core.lean (_process, remove_model) tied by trace equality, acceptor Model/Spec/C05.lean, visibility marker (first finalize callback). Hierarchical machines share Machine._process; their queue behaviour is exercised by the nested correspondence.",
-        technique="Lean 4 proof (simulation with an abstract queue) + differential correspondence + verified trace monitor")
+        level='proof', design='DESIGN.md 4/C05 + design_notes/C05N.md',
+        text="Lean 4 theorem C05_queued_history: for every queued configuration, every script whose callbacks trigger events / remove models / raise arbitrarily, and every history, the engine model's trace follows the abstract FIFO queue (run-to-completion incl. finalize, arrival order, at most once, deferred calls return True, discard on escape, remove_model drops exactly that model's pending entries, drain returns only when empty). Proved by simulation; the same acceptor judges implementation traces of Machine and of the other synchronous classes; unqueued immediacy by model equality. Transports, all by simulation on generic skeletons and for EVERY script without side conditions: C05N_queued_history (hierarchical engine nmachineProcess/ndrain/ntriggerEvent, any state tree, same acceptor, no projection), C05N_deferred_trigger, C05N_unqueued_nested_immediate/_complete; C05A_queued_history (async engine, queued=True, any callback kinds, no staging hypothesis), C05A_queued_history_partial (transport through C07's Agree; acceptor proved insensitive to what obsC07 removes, C05_idle_filter); C05M_permodel_history (queued='model': a stack of per-model sessions, acceptor Model/Spec/C05M.lean). Tie: trace equality model = HierarchicalMachine (queued, and unqueued at root scope) incl. raising callbacks and on_exception, verified acceptors on traces of HierarchicalMachine / LockedHierarchicalMachine / HierarchicalAsyncMachine / AsyncMachine (queued=True and 'model' on 1-3 models), an immediacy oracle on unqueued hierarchical traces, the sync-vs-async twin.",
+        note="Trusted: Lean kernel, Model/Core.lean (_process, remove_model), Model/NestedDispatch.lean, Model/Async.lean tied by trace equality, acceptors Model/Spec/C05.lean and Model/Spec/C05M.lean, visibility marker (first finalize callback). The hierarchical model has one model (no remove_model clause there) and does not model the machine's dynamic scope (unqueued triggers from on_enter/on_exit or from callbacks of events declared inside states are judged by the oracle only). Async: triggers awaited one at a time.",
+        technique="Lean 4 proof (simulation with an abstract queue; generic skeletons for the hierarchical and the async engine) + differential correspondence + verified trace monitors")
     level = 'proof'
     theorems = ('TM.C05_top_trigger', 'TM.C05_queued_history', 'TM.C05_unqueued_nested_immediate',
                 # hierarchical engine (lean/Props/C05N.lean)
@@ -304,9 +304,15 @@ class C05(flatcheck.FlatCheck):
     rule = ('random callback programs: scripts in which callbacks at any stage trigger events on the same or other '
             'models (registered or not), call remove_model, or raise (Exception and BaseException), nested through '
             'the queue, on flat machines with 1-3 models, queued (judged by the verified abstract-queue monitor) '
-            'and unqueued (model equality); non-trivial = at least one trigger issued from inside a callback')
+            'and unqueued (model equality); hierarchical machines (random trees with compound / parallel states, depth <= 3, '
+            'machine-level and state-level declarations) with callbacks at every stage triggering events and raising, with '
+            'and without on_exception handlers, queued and direct, on HierarchicalMachine / LockedHierarchicalMachine / '
+            'HierarchicalAsyncMachine; AsyncMachine with queued=True and queued=\'model\' on 1-3 models incl. structured '
+            'nested-session scenarios; non-trivial = at least one trigger issued from inside a callback')
     trusted = ('hand-written model lean/Model/Core.lean (Machine._process, remove_model) tied to /repo by trace equality',
-               'abstract queue acceptor lean/Model/Spec/C05.lean',
+               'hand-written models lean/Model/NestedDispatch.lean (nested-queued / nested-unqueued streams) and '
+               'lean/Model/Async.lean (C07 check + async-monitor stream), tied by trace equality',
+               'abstract queue acceptors lean/Model/Spec/C05.lean (machine-wide) and lean/Model/Spec/C05M.lean (per model)',
                'visibility assumption: a distinguished first finalize_event callback marks completion of an event')
 
     def assumptions(self):
